@@ -106,7 +106,8 @@ def replace_scenario(ctx, job):
     def run(e):
         b = Broker(e); b.new_store()
         b.add_proxies(job['layout'])
-        r = b.add_cluster(4 * job.get('chunks', 1), 'c1'); assert r.variant == 0, r
+        r = b.add_cluster(4 * job.get('chunks', 1), 'c1')
+        if r.variant != 0: return 0        # this layout cannot host the cluster (refusal is checked by the alloc scenarios): nothing to replace
         b.mark_initial()
         members = cluster_proxies(b)
         victim = members[e.choose(len(members), 'victim')]
